@@ -18,6 +18,54 @@ use chrony_candm::reply::Tracking;
 pub mod verif {
     pub use crate::chrony_poller::verif_hooks as chrony_poller;
     pub use crate::shm_writer::verif_hooks as shm_writer;
+
+    /// Fault injection for the worker threads: one armed fault fires at the n-th visit of a site.
+    pub mod fault {
+        use std::sync::atomic::{AtomicU32, Ordering};
+
+        /// The chrony poller thread has just started.
+        pub const POLLER_START: u32 = 1;
+        /// Top of an iteration of the chrony poller loop.
+        pub const POLLER_LOOP: u32 = 2;
+        /// The shared memory writer thread has just started.
+        pub const WRITER_START: u32 = 3;
+        /// Top of an iteration of the shared memory writer loop.
+        pub const WRITER_LOOP: u32 = 4;
+
+        /// The thread panics at the fault point.
+        pub const MODE_PANIC: u32 = 1;
+        /// The thread function returns at the fault point.
+        pub const MODE_RETURN: u32 = 2;
+
+        static SITE: AtomicU32 = AtomicU32::new(0);
+        static NTH: AtomicU32 = AtomicU32::new(0);
+        static MODE: AtomicU32 = AtomicU32::new(0);
+        static VISITS: AtomicU32 = AtomicU32::new(0);
+
+        /// Arm one fault: at the `nth` visit (1-based) of `site`, act according to `mode`. `site` 0 disarms.
+        pub fn arm(site: u32, nth: u32, mode: u32) {
+            VISITS.store(0, Ordering::SeqCst);
+            NTH.store(nth, Ordering::SeqCst);
+            MODE.store(mode, Ordering::SeqCst);
+            SITE.store(site, Ordering::SeqCst);
+        }
+
+        /// A fault point. Returns true when the caller has to return; panics when the armed fault says so.
+        pub fn point(site: u32) -> bool {
+            if SITE.load(Ordering::SeqCst) != site {
+                return false;
+            }
+            let visit = VISITS.fetch_add(1, Ordering::SeqCst) + 1;
+            if visit != NTH.load(Ordering::SeqCst) {
+                return false;
+            }
+            match MODE.load(Ordering::SeqCst) {
+                MODE_PANIC => panic!("injected fault at site {}", site),
+                MODE_RETURN => true,
+                _ => false,
+            }
+        }
+    }
 }
 
 /// Type alias for i64 for error bound values retrieved from PHC sysfs interface.
